@@ -276,6 +276,7 @@ func checkCompositeKinds(c *Ctx, pk *packages.Package) {
 	src := nodeText(pk, fd)
 	c.Check(strings.Contains(src, `PkgPath == "time"`) && strings.Contains(src, `"date-time"`), rule, "codescan.schemaBuilder.buildFromType › time.Time", c.posOf(pk, fd.Pos()), "string/date-time, package tested by path", "time.Time is not recognised by package path and mapped to string/date-time")
 	c.Check(strings.Contains(src, `PkgPath == "encoding/json"`) && strings.Contains(src, `"RawMessage"`), rule, "codescan.schemaBuilder.buildFromType › json.RawMessage", c.posOf(pk, fd.Pos()), "object, package tested by path", "json.RawMessage is not recognised by package path")
+	c.Check(regexp.MustCompile(`PkgPath == "encoding/json" && \w+\.Name\(\) == "Number" \{\s*(//[^\n]*\s*)*\w+\.Typed\("number", ""\)`).MatchString(src), rule, "codescan.schemaBuilder.buildFromType › json.Number", c.posOf(pk, fd.Pos()), "number, package tested by path", "json.Number is not described as a number: encoding/json writes it as a JSON number literal, the scanner publishes a string")
 	// map keys: string-kinded or TextMarshaler only
 	c.Check(strings.Contains(src, "AdditionalProperties()"), rule, "codescan.schemaBuilder.buildFromType › map → additionalProperties", c.posOf(pk, fd.Pos()), "maps become additionalProperties", "maps are no longer described through additionalProperties")
 }
